@@ -30,7 +30,9 @@ check('C17', 'oset', 'exploration',
       'Seeded search over histories of every OrderedSet/QuerySet operation issued by 1-3 interleaved clients on 2-3 sets, '
       'including iterators suspended between scheduler steps that remove the element just yielded and rejected calls that must '
       'leave the set unchanged; after every step list, reversed, len, membership, first/last and equality are compared with a '
-      'plain-list reference. A clean batch is evidence over the sampled histories, not a proof.',
+      'plain-list reference; equality also against operands that are no collection of hashable elements (None, numbers, '
+      'instances, lists of lists, a navigation chain), which must compare unequal and return. A clean batch is evidence over '
+      'the sampled histories, not a proof.',
       'Trusted: the list reference model, CPython collections.abc mixins. Granularity of interleaving is the API call '
       '(pyxtuml has no threads). Order is compared only where the statement fixes it.',
       'DESIGN.md §4 C17')
@@ -47,7 +49,9 @@ check('C02', 'store', 'exploration', STORE_TECH,
       'pair, unknown association/phrase/class pair, repeated delete). After every call: outcome (return value or exception class) '
       'equals the reference; navigation from both ends of every association for every live instance equals the reference pair set '
       '(hence symmetric, live instances only); every referential attribute reads as a linked identifying value or unset; a rejected '
-      'call leaves pools, links, attribute reads and the serialized text unchanged.', STORE_NOTE, 'DESIGN.md §4 C02')
+      'call leaves pools, links, attribute reads and the serialized text unchanged. Key attributes of associations and '
+      'identifiers are declared under other spellings than the columns in part of the schemas. 30 % of the histories end with a '
+      'relate that names a deleted instance (known finding: it is accepted).', STORE_NOTE, 'DESIGN.md §4 C02, §12.13')
 check('C09', 'store', 'exploration', STORE_TECH,
       'Inside the same histories one client issues select_many/one/any with where_eq, dict filters, lambdas and (reverse_)order_by '
       'in any combination, and navigation chains of length 1-4 from None, an instance, a QuerySet, a list, a generator or a '
@@ -58,7 +62,9 @@ check('C10', 'store', 'exploration', STORE_TECH,
       'Histories of attribute writes, reads, deletes, constructor keywords, where_eq filters and class lookups, each under an '
       'independently drawn spelling; after every step every attribute of every live instance is read under every case pattern '
       '(exhaustive for names of up to four letters) and compared with the single value the reference holds, as is the serialized '
-      'text; writes to referential attributes must be rejected without effect.', STORE_NOTE, 'DESIGN.md §4 C10')
+      'text; writes to referential attributes must be rejected without effect; referential constructor keywords are spelled '
+      'freely as well. 30 % of the histories end with a keyword spelled exactly like a constructor parameter (kind= / self=; '
+      'known finding).', STORE_NOTE, 'DESIGN.md §4 C10, §12.13')
 check('C11', 'c11', 'exploration',
       'deterministic simulation: two engines share the runs -- seeded API histories with injected rejected calls (store profile, '
       'also starting from loaded populations) and seeded deliveries of populations with duplicate / null / dangling keys as files '
@@ -77,7 +83,9 @@ check('C16', 'store', 'exploration', STORE_TECH,
       'creation order (rejected relates included); after which sets made of whole chains, a single ring, the empty set, or '
       'arbitrary subsets are sorted across either phrase. Oracle: permutation, every chain contiguous from its head along the '
       'opposite phrase, ring once around from the first member; termination by a step meter (sys.monitoring line events) with '
-      'a wall-clock backstop that is only believed after confirmation in a fresh process.', STORE_NOTE, 'DESIGN.md §4 C16')
+      'a wall-clock backstop that is only believed after confirmation in a fresh process. 4 % of the histories end with a '
+      'chain or ring of 1100-2500 instances (created in scrambled order) sorted across both phrases.', STORE_NOTE,
+      'DESIGN.md §4 C16, §12.14')
 check('C19', 'store', 'exploration', STORE_TECH,
       'Creation histories with any mix of positional, keyword (any spelling, repeated) and omitted arguments on schemas with all '
       'core types in lower/upper/capitalised type names and a class with an unknown type; uuid generator on a seeded entropy '
@@ -95,8 +103,9 @@ check('C03', 'delivery', 'exploration',
       'agree; on populations for which the API documents no rejection the same rows created with MetaModel.new (referred rows '
       'first) and with clone must give the same links.',
       'Trusted: the independent renderer and join (engines/sqlgen.py), SimDisk. Instance order inside a pool follows statement '
-      'order and is not compared across plans. One known finding (new() across phrased associations) is listed in '
-      'known_findings.json and reported as KNOWN-FINDING.', 'DESIGN.md §4 C03')
+      'order and is not compared across plans. Two known findings (new() across phrased associations; the cross product the '
+      'loader builds across an association without keys) are listed in known_findings.json and reported as KNOWN-FINDING.',
+      'DESIGN.md §4 C03, §12.13, §12.14')
 
 check('C12', 'loadfault', 'fault_enumeration',
       'deterministic simulation with fault enumeration: every single-edit fault site (truncate / token delete, duplicate, swap, '
@@ -106,7 +115,9 @@ check('C12', 'loadfault', 'fault_enumeration',
       'with history; the call must return or raise ParsingException; after a rejection the loader and a twin that never saw the '
       'chunk must build equal metamodels, again after a common suffix; building accepted text must succeed or raise '
       'ParsingException / MetaException; metered line events must stay within a linear budget. Quick: seeded sample of the sites of '
-      'every block (~200 k sites); thorough: every single-fault site of the corpus plus seeded double faults.',
+      'every block (~200 k sites); thorough: every single-fault site of the corpus plus seeded double faults. A fixed list of '
+      'about fifty small odd-but-legal texts (reserved python names and names of type attributes as columns, empty and '
+      'mismatched key lists, case-colliding columns, wrong lexical classes, out-of-range numbers) goes through the same protocol.',
       'Trusted: the independent tokenizer, the twin-loader construction, the canonical form (engines/sqlgen.py). Faults are '
       'applied to characters, not raw bytes. Regex back-tracking inside C is only visible to the wall-clock backstop.',
       'DESIGN.md §4 C12')
@@ -131,7 +142,9 @@ check('C18', 'parties', 'exploration',
       'Every step of a seeded interleaving of input (valid and deliberately rejected chunks, string and file routes), build and '
       'mutation of built metamodels (new, delete, setattr, relate, unrelate, append/delete attribute, define identifier/class, '
       'clone) is followed by a digest of every metamodel taken through the public API: only the addressed one may change; every '
-      'build must equal the build of a fresh loader fed exactly the accepted chunks.',
+      'build must equal the build of a fresh loader fed exactly the accepted chunks. A third of the builds bring their own id '
+      'generator (a build without one must not share a source of ids with any other); a fifth of the histories end with accepted '
+      'text that no build can digest, followed by builds that all have to be refused.',
       'Trusted: the canonical form (engines/sqlgen.py). Both oracles are model-free (real twin / before-after digests).',
       'DESIGN.md §4 C18')
 
@@ -153,23 +166,29 @@ check('C01', 'storedisk', 'exploration',
 ORDER_TECH = ('deterministic simulation: seeded delivery plans (row permutation x partition x route through string / file / '
               'directory tree / zip on a simulated disk) of real BridgePoint model files, twin oracle (extraction from the natural order)')
 ORDER_NOTE = ('NARROW CLAIM: only the clause of the property that says the result does not depend on the order of the rows in the '
-              'model files (and on how they are split) is decided; the mapping itself is a pure function of the model and is not '
-              'decided by this technique (DESIGN.md §2, §12.7). Corpus: two real models plus seeded extra enumerations.')
+              'model files (and on how they are split) is decided, plus that it does not depend on what the process has extracted '
+              'before; the mapping itself is a pure function of the model and is not decided by this technique (DESIGN.md §2, '
+              '§12.7, §12.13). Corpus: three real models plus seeded extra enumerations / external entities.')
 check('C14', 'modelorder', 'exploration', ORDER_TECH,
       'The component built by build_component (classes with attributes in modelled order and core types, identifiers, '
       'associations with key pairs, multiplicity, conditionality, phrases) is compared between the natural row order and 2-3 '
-      'seeded deliveries of the same rows (permuted, partitioned, routed through files, directory trees and zip archives).',
-      ORDER_NOTE, 'DESIGN.md §12.7')
+      'seeded deliveries of the same rows (permuted, partitioned, routed through files, directory trees and zip archives). '
+      'History oracle: a third of the runs also extract a one-edit variant of the model (a user data type retargeted, a class '
+      'moved) in the warm process and with a freshly imported copy of the library (restarted node); both must agree.',
+      ORDER_NOTE, 'DESIGN.md §12.7, §12.13')
 check('C15', 'modelorder', 'exploration', ORDER_TECH,
       'Enumerator positions and constant values found through Domain.find_symbol are compared between the natural row order and '
       '2-3 seeded deliveries of the same rows, and every enumerator position is compared with the modelled succession order (R56) '
-      'computed from the rows by an independent tokenizer; seeded extra enumerations with scrambled enumerator rows are added.',
+      'computed from the rows by an independent tokenizer; seeded extra enumerations with scrambled enumerator rows are added. '
+      'Seeded external entities whose bridges return their own constants are invoked and compared with the twin and with '
+      'the constant in each body.',
       ORDER_NOTE + ' Invocation semantics (parameter binding, scopes, return values, derived attributes) are NOT decided.',
       'DESIGN.md §12.7')
 check('C20', 'modelorder', 'exploration', ORDER_TECH,
       'The XSD schema built by gen_xsd_schema.build_schema for every component (declarations and attributes as sets, enumerators '
-      'in order) is compared between the natural row order and 2-3 seeded deliveries of the same rows.',
-      ORDER_NOTE, 'DESIGN.md §12.7')
+      'in order) is compared between the natural row order and 2-3 seeded deliveries of the same rows. History oracle as '
+      'for C14: a one-edit variant extracted by the warm process and by a freshly imported copy of the library.',
+      ORDER_NOTE, 'DESIGN.md §12.7, §12.13')
 
 
 def build():
